@@ -396,6 +396,10 @@ func (q *Queue) tryDelivery(meta *QueueMetadata, header textproto.Header, body b
 		rcptErr, ok := partialErr.Errs[rcpt]
 		if !ok {
 			dl.Msg("delivered", "rcpt", rcpt, "attempt", meta.TriesCount[rcpt]+1)
+			// readDiskQueue calculates the time of the next attempt using
+			// all counters left in the meta-data, keep only ones for
+			// recipients that are still pending.
+			delete(meta.TriesCount, rcpt)
 			continue
 		}
 
